@@ -54,7 +54,7 @@ def _rowframe(prop):
     return runner.PureSpec(
         prop=prop, module="RowFrame", trace_module="RowFrameTrace", driver="drivers.rowframe",
         cfg={"quick": "RowFrame_quick.cfg", "thorough": "RowFrame_thorough.cfg"},
-        sample={"quick": 1500, "thorough": 30000}, variants=variants,       # all 149,792 patterns x 4 variants took over an hour
+        sample={"quick": 1500, "thorough": 10000}, variants=variants,       # all 149,792 patterns x 4 variants took over an hour, 30,000 half an hour
         spec_files=["RowFrame.tla", "RowFrameDefs.tla", "RowFrameTrace.tla"],
         rule="every pattern of <= MaxRows rows over temperature {finite, NaN, +inf, -inf} x usage {value, missing}, daily and billing, "
              "enumerated by TLC; each is embedded (daily: a day per row, padded to 0/30/120/366 days; billing: a calendar month per row) in a real "
